@@ -12,8 +12,8 @@
 (* Per step: (1) observed cluster state updated, MultiContract evaluated on   *)
 (* it -> "PROP:<clause>"; (2) MultiCore stepped alongside and compared ->     *)
 (* "MODEL:<action>:<field>"; while in sync the deviations exercised by the    *)
-(* step are collected.  Output: <<"P", id, clause, step, model in sync,        *)
-(* exercised>> once per clause found false, then <<"V", id, ACCEPT | PROP |   *)
+(* step are collected.  Output: <<"P", id, clause, instance (slot), step, model *)
+(* in sync, exercised>> once per violation instance, then <<"V", id, ACCEPT | PROP | *)
 (* MODEL:.., pos>> and <<"M", id, first mismatch | "none", pos, exercised>>.  *)
 EXTENDS Integers, Sequences, FiniteSets, TLC, Json, IOUtils, Bags, MultiContract
 
@@ -79,9 +79,10 @@ Init == ti = 1 /\ InitFor(Tr)
 RECURSIVE MaskOf(_, _)
 MaskOf(u, i) == IF i > Len(Tr.dev) THEN 0 ELSE (IF Tr.dev[i] \in u THEN 2 ^ (i - 1) ELSE 0) + MaskOf(u, i + 1)
 
-\* every clause found false for the first time is reported with the model status AFTER this step:
-\*   <<"P", id, clause, step, model still in sync, exercised deviations>>
-Report(new, pos, st) == \A c \in new : PrintT(<<"P", Tr.id, c, pos, st.sync, MaskOf(st.used, 1)>>)
+\* every violation instance (clause, slot | future number) is reported once, with the model status
+\* AFTER this step:   <<"P", id, clause, instance, step, model still in sync, exercised deviations>>
+Report(new, pos, st) == \A c \in new : PrintT(<<"P", Tr.id, c[1], c[2], pos, st.sync, MaskOf(st.used, 1)>>)
+Tag(name, S) == { <<name, x>> : x \in S }
 
 ObsStep(s) ==
     LET n == s.node
@@ -91,12 +92,12 @@ ObsStep(s) ==
         ap2 == IF touched THEN [oApp EXCEPT ![n] = [i \in 1..Len(s.post[7]) |-> s.post[7][i]]] ELSE oApp
         sb2 == IF s.a \in {"submit", "forward"} THEN subm \cup {s.c} ELSE subm
         f2 == [k \in 1..Len(s.futs) |-> [cmd |-> s.futs[k][1], idx |-> s.futs[k][2]]]
-        futStable == \A k \in 1..Len(oFuts) : oFuts[k].idx # Pending => (k <= Len(f2) /\ f2[k].idx = oFuts[k].idx)
-        falseNow == (IF ~Stability(oLog, oCommit, lg2, cm2) THEN {"stability"} ELSE {})
-                    \cup (IF ~Agreement(lg2, cm2) THEN {"agreement"} ELSE {})
-                    \cup (IF ~Validity(lg2, cm2, sb2) THEN {"validity"} ELSE {})
-                    \cup (IF ~FutureTruth(lg2, cm2, f2) THEN {"future_truth"} ELSE {})
-                    \cup (IF ~futStable THEN {"future_changed"} ELSE {})
+        futChanged == { k \in 1..Len(oFuts) : oFuts[k].idx # Pending /\ ~(k <= Len(f2) /\ f2[k].idx = oFuts[k].idx) }
+        falseNow == Tag("stability", StabilityBad(oLog, oCommit, lg2, cm2))
+                    \cup Tag("agreement", AgreementBad(lg2, cm2))
+                    \cup Tag("validity", ValidityBad(lg2, cm2, sb2))
+                    \cup Tag("future_truth", FutureTruthBad(lg2, cm2, f2))
+                    \cup Tag("future_changed", futChanged)
     IN /\ oLog' = lg2 /\ oCommit' = cm2 /\ oApp' = ap2 /\ oFuts' = f2 /\ subm' = sb2
        /\ bad' = bad \cup falseNow
        /\ Report(falseNow \ bad, l, ms')
@@ -172,7 +173,7 @@ EndVerdict ==
 Next ==
     /\ ti <= NT
     /\ IF l > Len(Tr.steps)
-       THEN /\ (ProgressFails => Report({"progress_established_leader"}, l - 1, ms))
+       THEN /\ (ProgressFails => Report({<<"progress_established_leader", 0>>}, l - 1, ms))
             /\ Finish(EndVerdict, IF ms.mism # "none" THEN ms.mpos ELSE l - 1)
        ELSE \E s \in {Tr.steps[l]} : ModelStep(s) /\ ObsStep(s) /\ l' = l + 1 /\ ti' = ti
 
